@@ -188,6 +188,14 @@ class controller_nonMPI(Controller):
 
         """
 
+        # steps that are not part of this block are neither first nor last in line (the empty block after the final one
+        # changes nothing, so that post_run still sees the last step of the run)
+        if active_slots:
+            for p in range(len(self.MS)):
+                if p not in active_slots:
+                    self.MS[p].status.first = False
+                    self.MS[p].status.last = False
+
         # loop over active slots (not directly, since we need the previous entry as well)
         for j in range(len(active_slots)):
             # get slot number
